@@ -46,6 +46,11 @@ def scenarios(tier):
         for trig in (('boot', 'start-all') if tier == 'quick' else TRIGGERS):
             for who in ('a', 'b'):
                 out.append(Scenario('prio', pr=list(pr), wc=1, gw=1, auto_c=True, trig=trig, E=0, nodet=True, fail=who))
+    # `start` of everything while the first watcher (respawn off) is running two workers short: its top-up is paced too
+    # and the next watcher waits for it
+    for pr in ([2, 1, 0], [1, 2, 0]):
+        for gw in (0, 1):
+            out.append(Scenario('prio', pr=list(pr), wc=1, gw=gw, auto_c=True, trig='start-glob-two', E=0, nodet=True, short=True))
     # a dense periodic check (0.2 s < the warmup delays): the respawn of a worker that died during the sequence is attempted
     # as soon as the sequence lets go of the exclusive slot - it must still keep its watcher's spacing
     for pr in (sub[:2] if tier == 'quick' else sub):
@@ -80,6 +85,8 @@ def run(scn, ch):
                 time.sleep(0.03)
                 return True
             kw['hooks'] = {'after_spawn': (slow_hook, False)}
+        if scn.p.get('short') and nm == 'a':
+            kw['respawn'] = False
         if scn.p.get('fail') == nm:
             def refuse(watcher, arbiter, hook_name, **kw2):
                 return False
@@ -109,7 +116,14 @@ def run(scn, ch):
             world.run(until=lambda w: w.boot_future.done() and w.slot() is None, horizon=12)
             world.run(horizon=0.3)
             if trig.startswith('start'):
-                world.request('stop', **({} if trig == 'start-all' else {'name': '[ab]'}))
+                if scn.p.get('short'):
+                    # a stays up, two workers short (it does not respawn); only b is stopped
+                    for p_ in world.procs_of('a', [RUNNING])[:2]:
+                        world.die(p_.pid, EXIT1)
+                    world.settle(1)
+                    world.request('stop', name='b')
+                else:
+                    world.request('stop', **({} if trig == 'start-all' else {'name': '[ab]'}))
                 world.run(until=lambda w: w.slot() is None, horizon=5)
             n0 = len(world.kernel.spawn_log)
             t0 = CLOCK.now
@@ -172,7 +186,7 @@ def _oracle(res, scn, spawns, involved, prio, wdel, deaths):
         res.check('C19.all_started', sorted(set(order)) == sorted(involved),
                   lambda: 'started %s, expected %s: ' % (sorted(set(order)), sorted(involved)) + desc(),
                   where='arbiter._start_watchers')
-        res.check('C19.counts', all(len(ts) == NS['abc'.index(w)] for w, ts in groups),
+        res.check('C19.counts', all(len(ts) == (2 if (w == 'a' and scn.p.get('short')) else NS['abc'.index(w)]) for w, ts in groups),
                   lambda: 'spawn counts per watcher wrong: ' + desc(), where='watcher.spawn_processes')
     for w, ts in groups:
         for i in range(len(ts) - 1):
